@@ -150,7 +150,7 @@ func c05Compose(p []kv) string {
 }
 
 func checkC05(c *ev.Ctx) {
-	c.Rule("encoder: complete product 2^4 flags x touch{-1..4} x usage{0,1,2} x ver{0,1,2,65535} x 6 principal lists x jointly varied 5-value string alphabet, plus 6 literal-escape / control-character strings in each string field of the generating set; decoder: single-field surgeries (delete, 3 case renames, duplicate before/after, retype to null/number/string/array/object/bool-flip) and double surgeries (one field deleted/renamed AND another duplicated or an unknown key added) on every field of a generating set of encoder outputs, all flag/touch/ver combinations as texts, a JSON value catalogue, every ordered pair (and triples) of a 17-text set decoded back to back (history independence), byte-substitution neighbourhood of an encoder output, and ALL strings up to length 5 (thorough 6) over a 13-symbol structural alphabet. non-trivial = Marshal succeeded (round-trip checked) or Unmarshal accepted (oracle checked); distinct by text")
+	c.Rule("encoder: complete product 2^4 flags x touch{-1..4} x usage{0,1,2} x ver{0,1,2,65535} x 6 principal lists x jointly varied 5-value string alphabet, plus 6 literal-escape / control-character strings in each string field of the generating set; decoder: single-field surgeries (delete, 3 case renames, duplicate before/after, retype to null/number/string/array/object/bool-flip) and double surgeries (one field deleted/renamed AND another duplicated or an unknown key added) and structural relocations (a field moved from the top level into a nested object / array / two levels / JSON-in-a-string under an unknown or known key, with and without a top-level copy) on every field of a generating set of encoder outputs, all flag/touch/ver combinations as texts, a JSON value catalogue, every ordered pair (and triples) of a 17-text set decoded back to back (history independence), byte-substitution neighbourhood of an encoder output, and ALL strings up to length 5 (thorough 6) over a 13-symbol structural alphabet. non-trivial = Marshal succeeded (round-trip checked) or Unmarshal accepted (oracle checked); distinct by text")
 	c.Assume("valid UTF-8 strings only (encoding/json replaces invalid UTF-8, which the property excludes)", "the independent decode uses encoding/json into map[string]RawMessage")
 	if c.ReplayCase != nil {
 		var k c05Case
@@ -325,6 +325,58 @@ func checkC05(c *ev.Ctx) {
 			}
 		}
 	}
+	// structural relocation: a field leaves the top level and reappears inside a nested value of an unknown (or known)
+	// key - object, array of objects, two levels deep, or a string holding JSON text; also every field nested at once
+	nest := 0
+	for gi, g := range generating {
+		if gi > 3 {
+			break
+		}
+		base := c05Pairs(g)
+		wraps := []func(k, v string) string{
+			func(k, v string) string { kb, _ := json.Marshal(k); return "{" + string(kb) + ":" + v + "}" },
+			func(k, v string) string { kb, _ := json.Marshal(k); return "[{" + string(kb) + ":" + v + "}]" },
+			func(k, v string) string { kb, _ := json.Marshal(k); return `{"a":{` + string(kb) + ":" + v + `}}` },
+			func(k, v string) string {
+				kb, _ := json.Marshal(k)
+				sb, _ := json.Marshal("{" + string(kb) + ":" + v + "}")
+				return string(sb)
+			},
+		}
+		for i := range base {
+			for wi, wrap := range wraps {
+				for _, host := range []string{"ext", "prins", base[(i+1)%len(base)].k} {
+					for _, keepTop := range []bool{false, true} {
+						var q []kv
+						for j, e := range base {
+							if j == i && !keepTop {
+								continue
+							}
+							if e.k == host {
+								continue // the host key carries the nested value instead of its own
+							}
+							q = append(q, e)
+						}
+						q = append(q, kv{host, wrap(base[i].k, base[i].v)})
+						c05Dec(c, c05Compose(q), fmt.Sprintf("relocation %d: %s nested under %s (kept at top level: %v)", wi, base[i].k, host, keepTop))
+						nest++
+					}
+				}
+			}
+		}
+		// everything but the version nested
+		var inner []kv
+		for _, e := range base {
+			if e.k != "ver" {
+				inner = append(inner, e)
+			}
+		}
+		c05Dec(c, c05Compose([]kv{{"ver", "1"}, {"ext", c05Compose(inner)}}), "relocation: all fields but ver nested under ext")
+		c05Dec(c, c05Compose([]kv{{"ext", c05Compose(base)}}), "relocation: whole KeyID nested under ext")
+		c05Dec(c, "["+c05Compose(base)+"]", "relocation: whole KeyID inside an array")
+		nest += 3
+	}
+	c.Set("relocations", nest)
 	c.Set("double_surgeries", dbl)
 	c.Set("surgeries", surg)
 	// history independence: every ordered pair over {each required field deleted, valid, inconsistent, wrong version, not JSON}
